@@ -24,4 +24,10 @@ CHECKS = {
         "text": "is_prime is run on every n below 2^26 (2^30 thorough) against a segmented sieve and find_prime_factor below 2^24 (2^28); oracle-generated adversarial 64-bit sets and 2-adic false-square candidates are judged by an independent 12-base Miller-Rabin; the five modular helpers run on boundary/random operands (both mul_mod paths, moduli above 2^63) under clang unsigned-integer-overflow traps so that any intermediate wrap-around is attributed to its operands.",
         "note": "Trusted: oracle code in harness/vf_numth.cc (no code shared with au/utility). 64-bit space sampled, not enumerated. A job that fails to return twice within a 20x time budget is reported as 'does not return'.",
     },
+    "C02": {
+        "module": ("vf.props.c02", "C02"), "engine": "planeB",
+        "technique": "runtime trace monitoring: compile-time unit algebra reified into JSONL events, judged by an exact Fraction-exponent model; cross-configuration trace equality",
+        "text": "Seeded random unit-expression trees over all library units, prefixes, magnitudes, powers and roots are reified (type id, dimension and magnitude exponent vectors) in several groupings and spellings; an exact model recomputes every event, checks type identity inside each algebraic equivalence class, equivalence <=> equal (dim, mag), unit_ratio, and that traces are byte-identical across compilers and language levels on a slice.",
+        "note": "Trusted: vf/model.py (exact exponent arithmetic), the reifier reading detail::DimT/MagT packs, leaf (dim, mag) taken from the library itself. Bounded tree depth; documented ordering exclusion filtered.",
+    },
 }
